@@ -610,7 +610,7 @@ func TestRange(t *testing.T) {
 
 var propRangeMatrix = &kit.Prop[RangeCase]{
 	ID: "C20", Name: "range-matrix",
-	Rule: "ALL headers 'bytes=' + one spec, and + two specs from a reduced set, over positions {0,1,len-2,len-1,len,len+1,2^31,2^50,2^63-1,2^63,2^64} and forms a-b / a- / -n, plus a fixed list of unit and syntax variants, for every content length in {0,1,2,3,10}, against both modifiers; non-trivial as in 'range'",
+	Rule: "ALL headers 'bytes=' + one spec, and + two specs from a reduced set, over positions {0,1,len-2,len-1,len,len+1,2^31,2^50,2^63-1,2^63,2^64} and forms a-b / a- / -n, plus a fixed list of unit and syntax variants, for every content length in {0,1,2,3,10}, against both modifiers (for lengths 2 and 10 also built from their JSON configuration); non-trivial as in 'range'",
 	Run:  runRange, Classes: classesRange,
 	NonTrivial: func(c RangeCase) bool { return c.Range != "" && nonTrivialRange(c.Range, int64(c.Len)) },
 }
@@ -664,6 +664,9 @@ func TestRangeMatrix(t *testing.T) {
 			}
 			for _, h := range headers {
 				for _, c := range []RangeCase{{Who: "body"}, {Who: "static"}, {Who: "body", Slack: 2}, {Who: "body", ViaJSON: true}, {Who: "static", ViaJSON: true}} {
+					if c.ViaJSON && n != 2 && n != 10 {
+						continue // JSON-built modifiers: two of the five lengths
+					}
 					c.Len, c.Seed, c.Range = n, uint64(n), h
 					if !yield(c) {
 						return
